@@ -162,6 +162,9 @@ def main(argv=None):
     if seed:
         k = seed % max(1, len(jobs))
         jobs = jobs[k:] + jobs[:k]
+    if hasattr(mod, 'weight'):
+        # long sub-harnesses first (better packing on 16 cores); stable
+        jobs.sort(key=lambda j: -mod.weight(subs[j[1]][0], subs[j[1]][1]))
     twins = getattr(mod, 'TWINS', None)
     if twins is None:
         twins = [i for i in idxs[:1]
